@@ -4754,4 +4754,38 @@ impl IceTransport {
         }
         clients.len()
     }
+
+    /// Verification hook (additive, `--cfg rustrtc_verif` only): forward
+    /// `TurnClient::verif_bind_channel` to every gathered TURN client; returns the channel numbers.
+    pub async fn verif_turn_bind_channel(&self, peer: SocketAddr) -> Vec<u16> {
+        let clients: Vec<Arc<TurnClient>> = self
+            .inner
+            .gatherer
+            .turn_clients
+            .lock()
+            .values()
+            .cloned()
+            .collect();
+        let mut out = Vec::new();
+        for c in &clients {
+            if let Ok(n) = c.verif_bind_channel(peer).await {
+                out.push(n);
+            }
+        }
+        out
+    }
+
+    /// Verification hook (additive, `--cfg rustrtc_verif` only): the production send wrapper
+    /// (`IceSocketWrapper::Turn`) of every gathered TURN client. A relay allocated over TURN/TCP
+    /// is never selected by ICE against UDP peers, so its ChannelData / Send-indication path for
+    /// application payloads cannot be reached through `get_selected_socket()`.
+    pub fn verif_turn_sockets(&self) -> Vec<IceSocketWrapper> {
+        self.inner
+            .gatherer
+            .turn_clients
+            .lock()
+            .iter()
+            .map(|(relayed, c)| IceSocketWrapper::Turn(c.clone(), *relayed))
+            .collect()
+    }
 }
